@@ -788,4 +788,185 @@ theorem lookup_mem {α : Type} (l : List (String × α)) (k : String) (v : α) (
     · obtain ⟨kv, hkv, he⟩ := ih h
       exact ⟨kv, by simp [hkv], he⟩
 
+/-! ### every failure is a `TopologyException` (no crash) on a well-formed table -/
+
+theorem validateNode_error (c : Cfg) (n : Node) (e : Err) (hl : (c.node.lookup n.ty).isSome)
+    (h : validateNode c n = .error e) : e = .topology := by
+  unfold validateNode at h
+  cases hr : c.node.lookup n.ty with
+  | none => simp [hr] at hl
+  | some row =>
+    rw [hr] at h
+    simp only at h
+    split at h
+    · split at h
+      · cases h; rfl
+      · cases h
+    · cases h; rfl
+
+theorem validateNodes_error (c : Cfg) (l : List Node) (e : Err) (hl : ∀ n ∈ l, (c.node.lookup n.ty).isSome)
+    (h : validateNodes c l = .error e) : e = .topology := by
+  induction l with
+  | nil => simp [validateNodes] at h
+  | cons n ns ih =>
+    simp only [validateNodes] at h
+    cases hv : validateNode c n with
+    | error e' =>
+      rw [hv] at h; cases h
+      exact validateNode_error c n e (hl n (by simp)) hv
+    | ok u =>
+      rw [hv] at h
+      exact ih (fun m hm => hl m (by simp [hm])) h
+
+theorem nstype_error (exp : Bool) (row : SvcRow) (s : Svc) (n : List NIface) (e : Err)
+    (h : (nstypeConstraints exp row s n).1 = .error e) : e = .topology := by
+  unfold nstypeConstraints at h
+  split at h
+  · cases h; rfl
+  split at h
+  · cases h; rfl
+  split at h
+  · rename_i e' hs
+    cases h
+    unfold siteSet at hs
+    split at hs
+    · cases ho : ownerSites n with
+      | error e'' => rw [ho] at hs; cases hs; exact ownerSites_error n _ ho
+      | ok xs => rw [ho] at hs; cases hs
+    · cases hs
+  · split at h
+    · cases h; rfl
+    · split at h
+      · cases h
+      · split at h
+        · split at h
+          · cases h
+          · cases h; rfl
+        · cases h
+      · split at h
+        · cases h; rfl
+        · cases h
+
+theorem checkReq_error (c : Cfg) (s : Svc) (site : Option String) (ps : List String) (e : Err)
+    (hg : ∀ p ∈ ps, p ∈ c.svcGetters) (h : checkReq c s site ps = .error e) : e = .topology := by
+  induction ps with
+  | nil => simp [checkReq] at h
+  | cons p ps ih =>
+    simp only [checkReq] at h
+    have hp : c.svcGetters.contains p = true := by simpa using hg p (by simp)
+    simp only [svcSees, hp, if_true] at h
+    split at h
+    · rename_i heq; cases heq
+    · exact ih (fun q hq => hg q (by simp [hq])) h
+    · cases h; rfl
+
+theorem checkForb_error (c : Cfg) (s : Svc) (site : Option String) (ps : List String) (e : Err)
+    (hg : ∀ p ∈ ps, p ∈ c.svcGetters) (h : checkForb c s site ps = .error e) : e = .topology := by
+  induction ps with
+  | nil => simp [checkForb] at h
+  | cons p ps ih =>
+    simp only [checkForb] at h
+    have hp : c.svcGetters.contains p = true := by simpa using hg p (by simp)
+    simp only [svcSees, hp, if_true] at h
+    split at h
+    · rename_i heq; cases heq
+    · exact ih (fun q hq => hg q (by simp [hq])) h
+    · cases h; rfl
+
+theorem validateConstraints_error (c : Cfg) (exp : Bool) (row : SvcRow) (s : Svc) (n : List NIface) (e : Err)
+    (hg : ∀ p ∈ row.req ++ row.forb, p ∈ c.svcGetters)
+    (h : (validateConstraints c exp row s n).1 = .error e) : e = .topology := by
+  unfold validateConstraints at h
+  match hn : nstypeConstraints exp row s n with
+  | (.error e', site) =>
+    rw [hn] at h; cases h
+    exact nstype_error exp row s n e (by rw [hn])
+  | (.ok u, site) =>
+    rw [hn] at h
+    simp only at h
+    cases h1 : checkReq c s site row.req with
+    | error e' =>
+      rw [h1] at h; cases h
+      exact checkReq_error c s site row.req e (fun p hp => hg p (List.mem_append.mpr (Or.inl hp))) h1
+    | ok u1 =>
+      rw [h1] at h
+      simp only at h
+      cases h2 : checkForb c s site row.forb with
+      | error e' =>
+        rw [h2] at h; cases h
+        exact checkForb_error c s site row.forb e (fun p hp => hg p (List.mem_append.mpr (Or.inr hp))) h2
+      | ok u2 =>
+        rw [h2] at h
+        simp only [checkIfTypes] at h
+        split at h
+        · cases h
+        · split at h
+          · cases h
+          · cases h; rfl
+
+theorem validateSvc_error (c : Cfg) (exp : Bool) (s : Svc) (e : Err)
+    (hg : ∀ kr ∈ c.svc, ∀ p ∈ kr.2.req ++ kr.2.forb, p ∈ c.svcGetters)
+    (hl : (c.svc.lookup s.ty).isSome) (h : (validateSvc c exp s).1 = .error e) : e = .topology := by
+  unfold validateSvc at h
+  cases hr : c.svc.lookup s.ty with
+  | none => simp [hr] at hl
+  | some row =>
+    obtain ⟨kr, hkr, rfl⟩ := lookup_mem c.svc s.ty row hr
+    rw [hr] at h
+    simp only at h
+    cases hres : resolve s s.ifs with
+    | error e' => rw [hres] at h; cases h; exact resolve_error s s.ifs e hres
+    | ok n =>
+      rw [hres] at h
+      exact validateConstraints_error c exp kr.2 s n e (hg kr hkr) h
+
+theorem validateSvcs_error (c : Cfg) (exp : Bool) (l : List Svc) (e : Err)
+    (hg : ∀ kr ∈ c.svc, ∀ p ∈ kr.2.req ++ kr.2.forb, p ∈ c.svcGetters)
+    (hl : ∀ s ∈ l, (c.svc.lookup s.ty).isSome) (h : (validateSvcs c exp l).1 = .error e) : e = .topology := by
+  induction l with
+  | nil => simp [validateSvcs] at h
+  | cons s rest ih =>
+    simp only [validateSvcs] at h
+    match hv : validateSvc c exp s with
+    | (.error e', s') =>
+      rw [hv] at h; cases h
+      exact validateSvc_error c exp s e hg (hl s (by simp)) (by rw [hv])
+    | (.ok u, s') =>
+      rw [hv] at h
+      exact ih (fun x hx => hl x (by simp [hx])) h
+
+theorem instances_unlimited (c : Cfg) (svcs : List Svc) (h0 : ∀ kr ∈ c.svc, kr.2.numInst = 0) :
+    instances c svcs = .ok () := by
+  have hz : ∀ ty, instLimit c ty = 0 := by
+    intro ty
+    unfold instLimit
+    cases hl : c.svc.lookup ty with
+    | none => rfl
+    | some row =>
+      obtain ⟨kr, hkr, rfl⟩ := lookup_mem c.svc ty row hl
+      exact h0 kr hkr
+  exact (instances_ok c svcs).mpr ⟨fun s _ h => absurd (hz s.ty) h, fun s _ h => absurd (hz s.ty) h⟩
+
+theorem validate_error (c : Cfg) (t : Topo) (e : Err)
+    (hg : ∀ kr ∈ c.svc, ∀ p ∈ kr.2.req ++ kr.2.forb, p ∈ c.svcGetters)
+    (h0 : ∀ kr ∈ c.svc, kr.2.numInst = 0)
+    (hn : ∀ n ∈ t.nodes, (c.node.lookup n.ty).isSome) (hs : ∀ s ∈ t.svcs, (c.svc.lookup s.ty).isSome)
+    (h : (validate c t).1 = .error e) : e = .topology := by
+  unfold validate at h
+  cases hv : validateNodes c (visibleNodes c t) with
+  | error e' =>
+    rw [hv] at h; cases h
+    exact validateNodes_error c _ e (fun n hn' => hn n ((mem_visibleNodes c t n).mp hn').1) hv
+  | ok u =>
+    rw [hv] at h
+    simp only at h
+    match hsv : validateSvcs c t.exp t.svcs with
+    | (.error e', svcs') =>
+      rw [hsv] at h; cases h
+      exact validateSvcs_error c t.exp t.svcs e hg hs (by rw [hsv])
+    | (.ok u', svcs') =>
+      rw [hsv] at h
+      simp only [instances_unlimited c svcs' h0] at h
+      cases h
+
 end FimVerif.Validate
